@@ -460,3 +460,31 @@ func zzC03_token_handover() {
 		symAssert(!(len(c.body) == 1 && c.body[0] == tagB), "a response is never delivered to a different caller")
 	}
 }
+
+// two callers issue a request with the same token at the same instant: exactly one of them is accepted, the other is
+// refused - never both (the check for an outstanding token and its registration are one step)
+func zzC03_sametoken_race() {
+	s := zzNewSession()
+	cc := zzNewConn(s, zzConnCfg{midSeed: 1000, nstart: 2, maxRetrans: 4})
+	tok := message.Token{0xC1, 0xC2}
+	a := &zzCall{token: tok}
+	b := &zzCall{token: tok}
+	tag := symU8("tag")
+	go zzDo(cc, a)
+	go zzDo(cc, b)
+	symIdle()
+	symCover("both-issued")
+	symAssert(len(s.written) == 1, "exactly one of two simultaneous requests with one token is transmitted")
+	symAssert(a.done != b.done, "and exactly one of them is refused at once")
+	if len(s.written) != 1 || a.done == b.done {
+		return
+	}
+	refused, accepted := a, b
+	if b.done {
+		refused, accepted = b, a
+	}
+	symAssert(refused.err != nil, "a request with a token that is still outstanding is rejected")
+	zzAnswer(cc, s.written[0], tag, 0, 1)
+	symWaitUntil(func() bool { return accepted.done })
+	symAssert(accepted.err == nil && len(accepted.body) == 1 && accepted.body[0] == tag, "the accepted request gets its answer")
+}
